@@ -38,6 +38,7 @@ def phased_case(rng, seq, nops):
 DOC_A = '{"a":[1,2,{"b":null}],"s":"some text that is long enough to make the print buffer of the formatted printer grow at least once: ' + 'x' * 200 + '","n":1.5}'
 DOC_B = '{"a":[1,3],"s":"other","z":true,"big":' + '1' * 70 + ',"bad":[' + '9' * 64 + '.5e3]}'
 
+DOC_C = '{"a":[1,3],"s":"other","z":true}'
 PATCH_C = ('[{"op":"copy","from":"/a","path":"/c"},{"op":"move","from":"/c","path":"/d"},{"op":"add","path":"/e","value":{"k":[1,"two",{"three":3}]}},'
            '{"op":"replace","path":"/s","value":["replaced",{"x":"y"}]},{"op":"test","path":"/d","value":[1,3]},{"op":"copy","from":"/e","path":"/a/-"},{"op":"remove","path":"/z"}]')
 
@@ -56,8 +57,9 @@ def external_script(cfgs, fail=None):
             'sortobj:0', 'sortobjcs:2', 'getptr:0:' + b'/a/2/b'.hex(), 'findptr:0:8', 'minify:' + b'[1 , 2 /* c */ ]'.hex(),   # h8
             'mal:616263', 'free:s0',
             'astr:2:x6b:x76', 'deto:2:x6b', 'del:10',        # h9, h10
-            'parse:' + PATCH_C.encode().hex(),               # h11: copy / move / add / replace / test / remove with values that need several blocks
-            'applypatchcs:2:11']
+            'parse:' + DOC_C.encode().hex(),                 # h11
+            'parse:' + PATCH_C.encode().hex(),               # h12: copy / move / add / replace / test / remove with values that need several blocks
+            'applypatchcs:11:12']
     line = 'hist EXS %s %s' % (fail or '0', ';'.join(ops))
     return Case(line, {'tags': ['external', 'config:' + '>'.join(cfgs)] + (['failure'] if fail else []), 'phases': list(cfgs), 'first': j0})
 
@@ -79,7 +81,7 @@ def generate(ctx):
             cases.append(external_script(['11'], fail='@%d.%d' % (op, k)))
     # JSON Patch / Merge Patch application under custom hooks with the k-th request of that call failing: whatever the utility does about the
     # failure (the unchanged code may lose blocks there, see DESIGN 11.6), every block it DOES release goes to the user's function exactly once
-    for op, kmax in ((11, 14), (13, 14), (27, 40)):      # applypatch (generated patch), mergepatch, applypatchcs (hand-written patch with copy / move)
+    for op, kmax in ((11, 14), (13, 14), (28, 40)):      # applypatch (generated patch), mergepatch, applypatchcs (hand-written patch with copy / move)
         for k in range(1, kmax + 1):
             c = external_script(['11'], fail='@%d.%d' % (op, k)); c.info['tags'] = c.info['tags'] + ['utils-failure']; c.info['utils_failure'] = True
             cases.append(c)
